@@ -158,6 +158,11 @@ func NewWorld(conf *configs.SchedulerConfig, opts WorldOpts, checks ...string) (
 	return newWorldYAML(MarshalConf(conf), opts, checks...)
 }
 
+// OpenWorld registers an RM with the YAML configuration; the caller must Close the world.
+func OpenWorld(y string, opts WorldOpts, checks ...string) (*World, string) {
+	return newWorldYAML(y, opts, checks...)
+}
+
 func newWorldYAML(y string, opts WorldOpts, checks ...string) (*World, string) {
 	conf, err := configs.LoadSchedulerConfigFromByteArray([]byte(y))
 	if err != nil {
